@@ -160,6 +160,11 @@ pub(crate) struct HostTimer {
     /// Set each time the software is run.
     now: Option<Instant>,
 
+    /// Set while the host's software is being torn down (crash / bounce). Its
+    /// tasks are then dropped outside of the host's runtime, where
+    /// `Instant::elapsed` silently falls back to the wall clock.
+    torn_down: bool,
+
     /// Time from the start of the simulation until this host was initialized.
     /// Used to calculate total simulation time below.
     start_offset: Duration,
@@ -174,6 +179,7 @@ impl HostTimer {
         Self {
             elapsed: Duration::ZERO,
             now: None,
+            torn_down: false,
             start_offset,
             since_epoch,
         }
@@ -192,10 +198,21 @@ impl HostTimer {
     /// `Instant` resets when the tokio runtime is recreated.
     pub(crate) fn now(&mut self, now: Instant) {
         self.now.replace(now);
+        self.torn_down = false;
+    }
+
+    /// Stop reading the runtime clock until the software runs again: clock
+    /// reads made by destructors during a crash or bounce see the time of the
+    /// last completed step.
+    pub(crate) fn tear_down(&mut self) {
+        self.torn_down = true;
     }
 
     /// Returns how long the host has been executing for in virtual time.
     pub(crate) fn elapsed(&self) -> Duration {
+        if self.torn_down {
+            return self.elapsed;
+        }
         let run_duration = self.now.expect("host instant not set").elapsed();
         self.elapsed + run_duration
     }
